@@ -15,8 +15,8 @@ Set Implicit Arguments.
 Definition phi (c : N) : N :=
   if N.eqb c SLASH then BSLASH else if N.eqb c BSLASH then SLASH else c.
 
-(* a portable byte: neither '\' nor ':' *)
-Definition okc (c : N) : Prop := c <> BSLASH /\ c <> COLON.
+(* a portable byte: none of '\' ':' '?' (all three are reserved in Windows file names) *)
+Definition okc (c : N) : Prop := c <> BSLASH /\ c <> COLON /\ c <> QMARK.
 Definition okstr (s : str) : Prop := Forall okc s.
 
 Ltac phi_cases c :=
@@ -45,9 +45,9 @@ Qed.
 Lemma phi_eqb_DOT c : N.eqb (phi c) DOT = N.eqb c DOT.
 Proof. rewrite <- phi_DOT at 1. apply phi_eqb. Qed.
 
-Lemma okc_0 : okc 0%N. Proof. split; discriminate. Qed.
-Lemma okc_SLASH : okc SLASH. Proof. split; discriminate. Qed.
-Lemma okc_DOT : okc DOT. Proof. split; discriminate. Qed.
+Lemma okc_0 : okc 0%N. Proof. repeat split; discriminate. Qed.
+Lemma okc_SLASH : okc SLASH. Proof. repeat split; discriminate. Qed.
+Lemma okc_DOT : okc DOT. Proof. repeat split; discriminate. Qed.
 
 Lemma is_sep_phi c : c <> BSLASH -> is_sep Windows (phi c) = is_sep Linux c.
 Proof.
@@ -72,6 +72,9 @@ Proof. rewrite <- phi_SLASH. apply phi_eqb. Qed.
 
 Lemma phi_eqb_COLON c : N.eqb (phi c) COLON = N.eqb c COLON.
 Proof. change COLON with (phi COLON) at 1. apply phi_eqb. Qed.
+
+Lemma phi_eqb_QMARK c : N.eqb (phi c) QMARK = N.eqb c QMARK.
+Proof. change QMARK with (phi QMARK) at 1. apply phi_eqb. Qed.
 
 (* ---- strings ------------------------------------------------------------------------ *)
 Notation mp := (map phi).
@@ -487,7 +490,7 @@ Section Vol2.
     assert (Hlast : last (W a) 0%N = phi (last a 0%N)).
     { unfold PathEquiv.W. rewrite last_app_ne; [apply last_mp|]. destruct a; [congruence|discriminate]. }
     rewrite Hlast, is_slash_phi.
-    pose proof (okstr_last Ha) as [Hl1 Hl2].
+    pose proof (okstr_last Ha) as (Hl1 & Hl2 & _).
     rewrite (is_slash_ok Hl1), phi_eqb_COLON.
     destruct (N.eqb_spec (last a 0%N) SLASH) as [Els|Nls].
     - (* a ends with a separator *)
@@ -517,3 +520,239 @@ Section Vol2.
       rewrite HWa. destruct (mp b); cbn [app]; rewrite <- ?app_assoc; reflexivity.
   Qed.
 End Vol2.
+
+(* ---- relative portable strings (no volume) ------------------------------------------------------ *)
+(* t is empty or does not start with a separator *)
+Definition relstr (t : str) : Prop := match t with [] => True | c :: _ => c <> SLASH end.
+
+Lemma vnl_rel (t : str) : okstr t -> relstr t -> volume_name_len Windows (mp t) = 0.
+Proof.
+  intros Hok Hrel. unfold volume_name_len. rewrite map_length.
+  destruct (Nat.ltb (length t) 2) eqn:El; [reflexivity|].
+  rewrite !nthb_map, phi_eqb_COLON.
+  destruct (okstr_nthb 1 Hok) as (_ & Hc & _). destruct (N.eqb_spec (nthb t 1) COLON); [contradiction|]. cbn [andb].
+  destruct t as [|c0 t']; [reflexivity|]. cbn [relstr] in Hrel.
+  assert (Hs : is_slash (phi (nthb (c0 :: t') 0)) = false).
+  { rewrite is_slash_phi. change (nthb (c0 :: t') 0) with c0.
+    inversion Hok as [|? ? (H1 & _) _]; subst. rewrite (is_slash_ok H1). apply N.eqb_neq. exact Hrel. }
+  rewrite Hs, andb_false_r. reflexivity.
+Qed.
+
+Lemma is_abs_rel (t : str) : okstr t -> relstr t -> is_abs Windows (mp t) = false /\ is_abs Linux t = false.
+Proof.
+  intros Hok Hrel. split.
+  - unfold is_abs. rewrite (vnl_rel Hok Hrel). reflexivity.
+  - destruct t as [|c t']; [reflexivity|]. cbn [is_abs relstr] in *. apply N.eqb_neq. exact Hrel.
+Qed.
+
+Lemma colon_before_sep_mp (buf : str) : okstr buf -> colon_before_sep Windows (mp buf) = false.
+Proof.
+  intros H. induction H as [|c buf Hc Hb IH]; [reflexivity|]. cbn [map colon_before_sep].
+  destruct (is_sep Windows (phi c)); [reflexivity|]. rewrite phi_eqb_COLON.
+  destruct Hc as (_ & Hc & _). destruct (N.eqb_spec c COLON); [contradiction|exact IH].
+Qed.
+
+Theorem clean_rel (t : str) : okstr t -> relstr t ->
+  clean Windows (mp t) = mp (clean Linux t) /\ okstr (clean Linux t).
+Proof.
+  intros Hp Hrel. unfold clean. rewrite (vnl_rel Hp Hrel).
+  change (volume_name_len Linux t) with 0. cbn [skipn].
+  destruct t as [|c0 p'].
+  { cbn [map]. split; [reflexivity|]. constructor; [exact okc_DOT|constructor]. }
+  set (p := c0 :: p') in *.
+  assert (Hc0 : c0 <> BSLASH) by (inversion Hp as [|? ? [H _] _]; exact H).
+  change (mp p) with (phi c0 :: mp p') at 1. cbv beta iota zeta.
+  change (phi c0 :: mp p') with (mp p).
+  rewrite (is_sep_phi Hc0), map_length.
+  set (out0 := {| lb_buf := None; lb_w := 0 |}).
+  assert (H0 : lb_ok out0) by exact I.
+  set (rooted := is_sep Linux c0).
+  set (out1 := if rooted then lb_append p out0 (sepc Linux) else out0).
+  assert (H1 : (if rooted then lb_append (mp p) out0 (sepc Windows) else out0) = lbm out1 /\ lb_ok out1).
+  { unfold out1. destruct rooted.
+    - split; [change (sepc Windows) with (phi (sepc Linux)); change out0 with (lbm out0) at 1; apply lb_append_map|
+              apply lb_append_ok; [exact Hp|exact H0|exact okc_SLASH]].
+    - split; [reflexivity|exact H0]. }
+  destruct H1 as [E1 Hok1]. rewrite E1.
+  destruct (@clean_loop_map p Hp (S (length p)) rooted (length p) (if rooted then 1 else 0) (if rooted then 1 else 0) out1 Hok1)
+    as [E2 Hok2].
+  rewrite E2.
+  set (out2 := clean_loop Linux p rooted (length p) (S (length p)) (if rooted then 1 else 0) (if rooted then 1 else 0) out1) in *.
+  change (lb_w (lbm out2)) with (lb_w out2).
+  set (out3 := if Nat.eqb (lb_w out2) 0 then lb_append p out2 DOT else out2).
+  assert (H3 : (if Nat.eqb (lb_w out2) 0 then lb_append (mp p) (lbm out2) DOT else lbm out2) = lbm out3 /\ lb_ok out3).
+  { unfold out3. destruct (Nat.eqb (lb_w out2) 0).
+    - split; [rewrite <- phi_DOT; apply lb_append_map|apply lb_append_ok; [exact Hp|exact Hok2|exact okc_DOT]].
+    - split; [reflexivity|exact Hok2]. }
+  destruct H3 as [E3 Hok3]. rewrite E3.
+  assert (Hpost : post_clean Windows 0 (lbm out3) = lbm out3).
+  { unfold post_clean, lbm. cbn [lb_buf]. unfold lb_ok in Hok3. destruct (lb_buf out3) as [buf|]; cbn [option_map]; [|reflexivity].
+    cbn [Nat.eqb negb]. rewrite (colon_before_sep_mp Hok3), !nthb_map, phi_eqb_QMARK.
+    destruct (okstr_nthb 1 Hok3) as (_ & _ & Hq). destruct (N.eqb_spec (nthb buf 1) QMARK); [contradiction|].
+    rewrite andb_false_r. reflexivity. }
+  rewrite Hpost.
+  assert (Hres : okstr (match lb_buf out3 with
+                        | None => firstn (0 + lb_w out3) p
+                        | Some buf => firstn 0 p ++ firstn (lb_w out3) buf end)).
+  { pose proof (@lb_bytes_ok p out3 Hp Hok3) as Hb. unfold lb_bytes in Hb. destruct (lb_buf out3); exact Hb. }
+  assert (Heq : (match lb_buf (lbm out3) with
+                 | None => firstn (0 + lb_w (lbm out3)) (mp p)
+                 | Some buf => firstn 0 (mp p) ++ firstn (lb_w (lbm out3)) buf end)
+                = mp (match lb_buf out3 with
+                      | None => firstn (0 + lb_w out3) p
+                      | Some buf => firstn 0 p ++ firstn (lb_w out3) buf end)).
+  { unfold lbm. cbn [lb_buf lb_w]. destruct (lb_buf out3) as [buf|]; cbn [option_map firstn app plus]; rewrite firstn_map; reflexivity. }
+  rewrite Heq. split.
+  - rewrite from_slash_id; [reflexivity|]. apply mp_no_slash. exact Hres.
+  - cbn [from_slash]. exact Hres.
+Qed.
+
+(* ---- Join of any number of elements, the first one carrying the volume ----------------------------- *)
+Lemma fc_cons (y : str) (ys : list str) : fc (y :: ys) = filter ne (comps y) ++ fc ys.
+Proof. reflexivity. Qed.
+
+Lemma comps_nil_snoc (x : str) : filter ne (comps (x ++ [SLASH])) = filter ne (comps x).
+Proof. rewrite comps_app_sep, filter_app_own. cbn. apply app_nil_r. Qed.
+
+Lemma strip_nil_comps (y : str) : okstr y -> strip_slashes y = [] -> filter ne (comps y) = [].
+Proof. intros Hy E. rewrite <- (comps_strip Hy), E. reflexivity. Qed.
+
+Definition hd0 (s : str) : N := match s with c :: _ => c | [] => 0%N end.
+
+Section Vol3.
+  Variable d : N.
+  Hypothesis Hd : is_letter d = true.
+  Notation W := (W d).
+
+  Lemma last_W (x : str) : x <> [] -> last (W x) 0%N = phi (last x 0%N).
+  Proof. intros Hne. unfold PathEquiv.W. rewrite last_app_ne; [apply last_mp|]. destruct x; [congruence|discriminate]. Qed.
+
+  Lemma W_cons (x : str) : exists t, W x = d :: t.
+  Proof. eexists; reflexivity. Qed.
+
+  (* one element of joinWindows on a non-empty builder *)
+  Lemma jw_step (x y : str) (rest : list str) : x <> [] -> okstr x -> okstr y ->
+    exists xn, join_windows_loop (mp y :: rest) (W x) (last (W x) 0%N)
+               = join_windows_loop rest (W xn) (last (W xn) 0%N)
+               /\ xn <> [] /\ okstr xn /\ hd0 xn = hd0 x
+               /\ filter ne (comps xn) = filter ne (comps x) ++ filter ne (comps y).
+  Proof.
+    intros Hne Hx Hy.
+    pose proof (okstr_last Hx) as (Hl1 & Hl2 & _).
+    assert (Hunf : join_windows_loop (mp y :: rest) (W x) (last (W x) 0%N)
+                   = let '(b1, e1, lc1) :=
+                       if N.eqb (last x 0%N) SLASH
+                       then (W x, mp (strip_slashes y), last (W x) 0%N)
+                       else (W x ++ [BSLASH], mp y, BSLASH) in
+                     match e1 with
+                     | [] => join_windows_loop rest b1 lc1
+                     | _ :: _ => join_windows_loop rest (b1 ++ e1) (last_byte e1 0%N)
+                     end).
+    { cbn [join_windows_loop]. destruct (W_cons x) as (t & HWx). rewrite HWx at 1. cbv iota.
+      rewrite (last_W Hne), is_slash_phi, (is_slash_ok Hl1), phi_eqb_COLON.
+      destruct (N.eqb_spec (last x 0%N) SLASH) as [Els|Nls].
+      - rewrite (length_W d). cbn [plus Nat.eqb andb]. rewrite strip_slashes_mp. reflexivity.
+      - destruct (N.eqb_spec (last x 0%N) COLON) as [E|_]; [contradiction|]. reflexivity. }
+    rewrite Hunf. clear Hunf.
+    destruct (N.eqb_spec (last x 0%N) SLASH) as [Els|Nls].
+    - assert (Hx' : exists x0, x = x0 ++ [SLASH]).
+      { destruct (exists_last Hne) as (x0 & z & ->). exists x0. rewrite last_last in Els. subst z. reflexivity. }
+      destruct Hx' as (x0 & Ex).
+      destruct (strip_slashes y) as [|c sy] eqn:Es.
+      + exists x. cbn [map]. split; [reflexivity|]. split; [exact Hne|]. split; [exact Hx|]. split; [reflexivity|].
+        rewrite (strip_nil_comps Hy Es), app_nil_r. reflexivity.
+      + assert (Hne2 : x ++ c :: sy <> []) by (destruct x; discriminate).
+        assert (Hok2 : okstr (x ++ c :: sy)) by (apply okstr_app; [exact Hx|rewrite <- Es; apply okstr_strip, Hy]).
+        exists (x ++ c :: sy).
+        assert (EW : W x ++ mp (c :: sy) = W (x ++ c :: sy)) by (symmetry; apply (W_app d)).
+        assert (EL : last_byte (mp (c :: sy)) 0%N = last (W (x ++ c :: sy)) 0%N).
+        { unfold last_byte. rewrite (last_W Hne2), last_app_ne by discriminate. apply last_mp. }
+        split; [|split; [exact Hne2|split; [exact Hok2|split]]].
+        * change (mp (c :: sy)) with (phi c :: mp sy) at 1. cbv iota. change (phi c :: mp sy) with (mp (c :: sy)).
+          rewrite EW, EL. reflexivity.
+        * destruct x; [congruence|reflexivity].
+        * rewrite <- (comps_strip Hy), Es. rewrite Ex, <- app_assoc. cbn [app].
+          rewrite comps_app_sep, filter_app_own, comps_nil_snoc. reflexivity.
+    - assert (Hne3 : x ++ [SLASH] <> []) by (destruct x; discriminate).
+      assert (Hok3 : okstr (x ++ [SLASH])) by (apply okstr_app; [exact Hx|constructor; [exact okc_SLASH|constructor]]).
+      destruct y as [|c y'].
+      + exists (x ++ [SLASH]). cbn [map].
+        assert (EW : W x ++ [BSLASH] = W (x ++ [SLASH])) by (rewrite (W_app d); reflexivity).
+        assert (EL : BSLASH = last (W (x ++ [SLASH])) 0%N) by (rewrite (last_W Hne3), last_last; reflexivity).
+        split; [rewrite EW; rewrite EL at 1; reflexivity|]. split; [exact Hne3|]. split; [exact Hok3|]. split.
+        * destruct x; [congruence|reflexivity].
+        * rewrite comps_nil_snoc. cbn. rewrite app_nil_r. reflexivity.
+      + assert (Hne2 : x ++ SLASH :: c :: y' <> []) by (destruct x; discriminate).
+        assert (Hok2 : okstr (x ++ SLASH :: c :: y')) by (apply okstr_app; [exact Hx|constructor; [exact okc_SLASH|exact Hy]]).
+        exists (x ++ SLASH :: c :: y').
+        assert (EW : (W x ++ [BSLASH]) ++ mp (c :: y') = W (x ++ SLASH :: c :: y')).
+        { rewrite (W_app d), <- app_assoc. reflexivity. }
+        assert (EL : last_byte (mp (c :: y')) 0%N = last (W (x ++ SLASH :: c :: y')) 0%N).
+        { unfold last_byte. rewrite (last_W Hne2). change (x ++ SLASH :: c :: y') with (x ++ [SLASH] ++ c :: y').
+          rewrite app_assoc, last_app_ne by discriminate. apply last_mp. }
+        split; [|split; [exact Hne2|split; [exact Hok2|split]]].
+        * change (mp (c :: y')) with (phi c :: mp y') at 1. cbv iota. change (phi c :: mp y') with (mp (c :: y')).
+          rewrite EW, EL. reflexivity.
+        * destruct x; [congruence|reflexivity].
+        * rewrite comps_app_sep, filter_app_own. reflexivity.
+  Qed.
+
+  Lemma jw_loop : forall (ys : list str) (x : str), x <> [] -> okstr x -> Forall okstr ys ->
+    exists x', join_windows_loop (map mp ys) (W x) (last (W x) 0%N) = W x' /\ x' <> [] /\ okstr x'
+               /\ hd0 x' = hd0 x /\ filter ne (comps x') = filter ne (comps x) ++ fc ys.
+  Proof.
+    induction ys as [|y ys IH]; intros x Hne Hx Hys.
+    - exists x. cbn [map join_windows_loop fc flat_map]. rewrite app_nil_r. auto.
+    - inversion Hys as [|? ? Hy Hys']; subst. cbn [map].
+      destruct (@jw_step x y (map mp ys) Hne Hx Hy) as (xn & E & H1 & H2 & H3 & H4).
+      destruct (IH xn H1 H2 Hys') as (x' & E' & G1 & G2 & G3 & G4).
+      exists x'. rewrite E, E'. split; [reflexivity|]. split; [exact G1|]. split; [exact G2|]. split; [congruence|].
+      rewrite G4, H4, fc_cons, app_assoc. reflexivity.
+  Qed.
+
+  Theorem join_W (a : str) (ys : list str) : a <> [] -> okstr a -> Forall okstr ys ->
+    join Windows (W a :: map mp ys) = W (join Linux (a :: ys)) /\ okstr (join Linux (a :: ys)).
+  Proof.
+    intros Hne Ha Hys.
+    destruct (jw_loop Hne Ha Hys) as (x' & E & H1 & H2 & H3 & H4).
+    assert (HL : join Linux (a :: ys) = clean Linux x').
+    { unfold join. destruct a as [|c a']; [congruence|]. cbn [drop_empty_prefix].
+      change (sepc Linux) with SLASH. rewrite !clean_spec_correct.
+      destruct x' as [|c' x'']; [congruence|]. cbn [hd0] in H3. subst c'.
+      rewrite intercalate_cons.
+      eapply clean_spec_by_comps; [cbn [app]; reflexivity|reflexivity|].
+      change ((c :: a') ++ match ys with [] => [] | _ :: _ => [SLASH] ++ intercalate [SLASH] ys end)
+        with ((c :: a') ++ match ys with [] => [] | _ :: _ => [SLASH] ++ intercalate [SLASH] ys end).
+      rewrite <- (intercalate_cons [SLASH] (c :: a') ys), filter_comps_intercalate, H4. reflexivity. }
+    destruct (@clean_W d Hd x' H1 H2) as [HC Hok]. rewrite HL. split; [|exact Hok]. rewrite <- HC.
+    unfold join. cbn [join_windows_loop].
+    assert (HWa : exists t, W a = d :: t) by (eexists; reflexivity). destruct HWa as (t & HWa).
+    rewrite HWa at 1. cbv iota. rewrite <- ?HWa. cbn [app].
+    change (last_byte (W a) 0%N) with (last (W a) 0%N). rewrite E.
+    assert (HWx : exists t', W x' = d :: t') by (eexists; reflexivity). destruct HWx as (t' & HWx).
+    rewrite HWx. reflexivity.
+  Qed.
+End Vol3.
+
+(* ---- shapes kept by the Linux flavour ------------------------------------------------------------ *)
+Lemma clean_relstr (t : str) : relstr t -> relstr (clean Linux t).
+Proof.
+  intros Hrel. rewrite clean_spec_correct. destruct t as [|c0 t']; [cbn; discriminate|].
+  cbn [relstr] in Hrel. unfold clean_spec.
+  destruct (N.eqb_spec c0 SLASH) as [E|_]; [contradiction|]. cbn [render].
+  destruct (norm_shape0 false (c0 :: t')) as (k & names & -> & Hg & _).
+  unfold L. destruct k as [|k].
+  - cbn [repeat app]. destruct (rev names) as [|n ns] eqn:En; [cbn; discriminate|].
+    assert (Hn : good n).
+    { rewrite Forall_forall in Hg. apply Hg. apply in_rev. rewrite En. left. reflexivity. }
+    destruct Hn as (Hne & Hsf & _). rewrite intercalate_cons. destruct n as [|x n']; [congruence|].
+    cbn [app relstr]. intros ->. specialize (Hsf SLASH (or_introl eq_refl)). discriminate Hsf.
+  - cbn [repeat app]. rewrite intercalate_cons. cbn. discriminate.
+Qed.
+
+Lemma join_rooted (a' : str) (ys : list str) : exists r, join Linux ((SLASH :: a') :: ys) = SLASH :: r.
+Proof.
+  unfold join. cbn [drop_empty_prefix]. rewrite intercalate_cons. cbn [app].
+  match goal with |- context [clean Linux (SLASH :: ?z)] => destruct (@clean_rooted (SLASH :: z) eq_refl) as (cs & Hc & _) end.
+  rewrite Hc. eauto.
+Qed.
